@@ -359,7 +359,7 @@ def theorem_coverage(ctx, cases, groups, relation):
         if not isinstance(r, list) or r[0] != "ok":
             st["other_relation"] += n
             continue
-        _, sane, nodd, views = r
+        _, sane, nodd, views = r[:4]
         if sane != "1":
             st["not_sane"] += n
             continue
